@@ -4,7 +4,7 @@ import json
 from check import Result
 
 PROP = "C14"
-TARGETS = ["NetqasmVerif.Props.C14", "NetqasmVerif.Props.EprRegsObligations"]
+TARGETS = ["NetqasmVerif.Props.C14", "NetqasmVerif.Props.EprRegsObligations", "NetqasmVerif.Props.C14Asm"]
 M = "NetqasmVerif.Props.C14"
 THEOREMS = [(M, "NQ.C14." + n) for n in [
     "balanced", "flush_balanced", "newReg_takes_one", "sequence_compiles", "compiles_of_need",
@@ -15,7 +15,9 @@ THEOREMS = [(M, "NQ.C14." + n) for n in [
     "meas_registers_released_at_flush", "meas_balanced", "reg_outcome_takes_one", "meas_compiles",
     "meas_sequence_compiles", "meas_budget_example"]] + [
     ("NetqasmVerif.Props.EprRegsObligations", "NQ.EprRegs." + n) for n in ["eprForms_balanced", "eprForms_peak",
-                                                                             "eprForms_nonempty"]]
+                                                                             "eprForms_nonempty"]] + [
+    ("NetqasmVerif.Props.C14Asm", "NQ.C14." + n) for n in [
+        "assembler_scratch_not_live", "live_registers_survive_assembly", "reserved_to_return_insufficient"]]
 TRANSLATORS = ["epr_regs"]
 LEVEL_TEXT = (
     "Lean theorems about an executable model of the SDK builder + memory manager (Model/Sdk.lean, `emit` mirrors "
@@ -25,11 +27,19 @@ LEVEL_TEXT = (
     "sequence of any length with flushes anywhere never raises 'could not find an available loop register' if each "
     "single operation does not (induction over the list); `compiles_of_need` + `depth_bound` — an operation of "
     "nesting depth k needs at most 1*k + (2 + future-index depth) registers, `long_run_compiles` combines them; "
-    "`temps_disjoint` — a temporary is taken from the inactive set and stays reserved; `temps_disjoint_code` — no EMITTED command of an operation writes an R register active at its start (live register of an enclosing operation) except the add of a RegFuture.add on its own handle. Tie: syntactic correspondence — "
+    "`temps_disjoint` — a temporary is taken from the inactive set and stays reserved; `temps_disjoint_code` — no EMITTED command of an operation writes an R register active at its start (live register of an enclosing operation) except the add of a RegFuture.add on its own handle; `assembler_scratch_not_live` / "
+    "`live_registers_survive_assembly` (Props/C14Asm.lean) — the temporaries the ASSEMBLER picks for constants, "
+    "given the reserved set the builder actually hands over (the active registers at the flush), are never active "
+    "registers, so registers live across flushes (new_register) keep their values through assembly; "
+    "`reserved_to_return_insufficient` — evaluated witness that the to-return list would not do. Tie: syntactic correspondence — "
     "random and adversarial host programs are run through the REAL SDK API; the proto-subroutine of every flush must "
     "equal the model's command for command and the MemoryManager snapshot (active registers, M registers, arrays/"
     "registers to return) must be equal after every top-level operation, including sequences of several hundred "
-    "operations of every kind. The model is of /repo with the F17 fix commits.")
+    "operations of every kind (also degenerate ones: empty bodies, empty ranges, nested empties). On executed runs "
+    "the set of reserved registers the real builder passes to the assembler equals the model's active registers at "
+    "that flush, and (model-free) the registers the real assembler introduces are disjoint from the registers live at "
+    "that flush; histories with registers live across flushes run on the real Executor against direct evaluation. "
+    "The model is of /repo with the F17 fix commits.")
 LEVEL_NOTE = (
     "Trusted: Lean kernel; harness/sdk.py (interpreter of the host AST through the SDK API, canonicalisation); the "
     "model abstracts LabelManager's set to counters and `_used_array_addresses` to a counter. EPR operations are not "
@@ -81,8 +91,22 @@ def _leak_check(H, prog, res, what):
                         "meas_registers_in_use": still, "op": t, "stream": what}
         after = sorted(x.index for x in r.mm._active_registers)
         if t["k"] != "reg" and after != before:
-            return {"what": "completed operation leaked/released registers", "step": step, "op": t,
-                    "active_before": before, "active_after": after, "stream": what}
+            out = {"what": "completed operation leaked/released registers", "step": step, "op": t,
+                   "active_before": before, "active_after": after, "stream": what}
+            # the same history, continued: the first operation at which compiling raises
+            for step2 in range(step + 1, len(prog)):
+                r.first_exc = None
+                try:
+                    if prog[step2]["k"] == "flush":
+                        r.flush()
+                    else:
+                        r.stmt(prog[step2])
+                except Exception as e:
+                    out["history_raises_at_step"] = step2
+                    out["history_error"] = H.err_kind(r.first_exc or e) + ": " + str(e)[:100]
+                    out["history_op"] = prog[step2]
+                    break
+            return out
         before = after
     return None
 
@@ -198,7 +222,7 @@ def run(ctx):
     if ctx.thorough:
         plans = [(400, 1), (400, 2), (400, 7), (400, 16), (400, 17), (300, 25), (250, 400)] * 4
     for n_ops, k in plans:
-        prog = H.long_sequence(rng, n_ops, k, depth=3)
+        prog = H.long_sequence(rng, n_ops, k, depth=3, degenerate=0.15)
         correspond(prog, "long-%d-flush-every-%d" % (n_ops, k))
         f = _leak_check(H, prog, res, "long")
         if f:
@@ -210,12 +234,16 @@ def run(ctx):
     nC = 2500 if ctx.thorough else 400
     base = [{"k": "arr", "len": 2, "init": [0, 1]}, {"k": "arr", "len": 2, "init": [1, 1]},
             {"k": "arr", "len": 2, "init": [2, 0]}]
-    for _ in range(nC):
-        op = H.completed_op(rng, depth=rng.choice([1, 2, 3, 4]))
+    for i in range(nC):
+        # every third one degenerate: empty bodies, empty ranges, nested empties
+        deg = i % 3 == 2
+        op = H.degenerate_op(rng) if deg else H.completed_op(rng, depth=rng.choice([1, 2, 3, 4]))
         prog = base + [x for _ in range(20) for x in (op, {"k": "flush"})]
         res.evaluations += 1
-        f = _leak_check(H, prog, res, "repeat-20")
-        res.count("repeat-kind:" + op["k"])
+        if deg:
+            correspond(base + [op, op, {"k": "flush"}, op, {"k": "flush"}], "degenerate")
+        f = _leak_check(H, prog, res, "repeat-20-degenerate" if deg else "repeat-20")
+        res.count("repeat-kind:" + ("degenerate-" if deg else "") + op["k"])
         if f:
             res.failures.append({"what": f["what"], "kf": None,
                                  "input": _shrink_leak(H, f) if len(res.failures) < 3 else f})
@@ -238,6 +266,40 @@ def run(ctx):
                 small = H.shrink(prog, lambda q: H.oracle(q, outs)[0] == "fail", 200, 20)
                 det = H.oracle(small, outs)[1]
             res.failures.append({"what": "end-to-end result of a nested operation differs from its direct evaluation: "
+                                         + det[0]["what"], "kf": None,
+                                 "input": {"program": small, "outcomes": outs, "detail": det[:3]}})
+    # -- stream G: registers live ACROSS flushes (new_register) + later subroutines full of constants that do
+    #    not mention them: (1) model-free: the registers the real assembler introduces are disjoint from the
+    #    registers live at that flush, and the run on the real Executor keeps the registers' values (vs direct
+    #    evaluation); (2) tie: the reserved set the real builder hands to the assembler = the model's active
+    #    registers at that flush (`reservedOf`, Props/C14Asm.lean), subroutines and snapshots as everywhere
+    ctrl_level = ("scratch-live", "ctrl-reg", "ctrl-array", "trace", "raise", "flushes")
+    nG = 1200 if ctx.thorough else 160
+    for _ in range(nG):
+        prog = H.live_across_flushes(rng)
+        outs = [rng.randrange(2) for _ in range(64)]
+        res.evaluations += 1
+        keep = {}
+        st, det = H.oracle(prog, outs, keep=keep)
+        det = [x for x in (det or []) if isinstance(x, dict) and x.get("feature") in ctrl_level]
+        res.count("live-across-flushes:" + ("fail" if det else st))
+        real = keep.get("real")
+        if real is not None and real.err is None:
+            res.count("assembler-scratch-registers", sum(len(v) for v in real.scratch.values()))
+            d = H.compare_syntactic(prog, real, drv.call({"op": "sdk.run", "p": prog}))
+            res.nontrivial.add(hash(H.dumps(prog)))
+            if d is not None:
+                res.disagreements.append({"stream": "sdk.live-across-flushes", "input": prog, "model": d,
+                                          "code": "see model/real diff"})
+        if st == "fail" and det:
+            small = prog
+            if sum(1 for x in res.failures if x["kf"] is None) < 3:
+                def still(q):
+                    s2, d2 = H.oracle(q, outs)
+                    return s2 == "fail" and any(x.get("feature") == det[0]["feature"] for x in d2)
+                small = H.shrink(prog, still, 200, 20)
+                det = [x for x in H.oracle(small, outs)[1] if x.get("feature") in ctrl_level] or det
+            res.failures.append({"what": "a register live across flushes did not survive a later subroutine: "
                                          + det[0]["what"], "kf": None,
                                  "input": {"program": small, "outcomes": outs, "detail": det[:3]}})
     # -- stream E: an explicit loop register that is in use must be rejected (never silently shared)
@@ -342,6 +404,12 @@ def run(ctx):
 def replay(ctx, payload):
     from harness import sdk as H
     f = payload.get("failure", {}).get("input", {})
+    if "program" in f:  # end-to-end streams: the program on the real Executor against direct evaluation
+        st, det = H.oracle(f["program"], list(f.get("outcomes", [])) + [0] * 64)
+        det = [x for x in (det or []) if isinstance(x, dict) and x.get("feature") in (
+            "scratch-live", "ctrl-reg", "ctrl-array", "trace", "raise", "flushes")]
+        print("replay:", st, json.dumps(det)[:1500])
+        return 1 if st == "fail" and det else 0
     prog = f.get("minimal") or [f.get("op")]
     base = [{"k": "arr", "len": 2, "init": [0, 1]}, {"k": "arr", "len": 2, "init": [1, 1]},
             {"k": "arr", "len": 2, "init": [2, 0]}]
